@@ -9,6 +9,7 @@ git merge --no-edit $g 2>&1 | tail -3
 for f in MANIFEST.json known_findings.json $(git diff --name-only --diff-filter=U | grep '^evidence/'); do
   if git diff --name-only --diff-filter=U | grep -qx $f; then git checkout --ours $f; git add $f; fi
 done
+for f in $(git diff --name-only --diff-filter=U | grep '^fingerprints/'); do git checkout --theirs $f; git add $f; done
 if git diff --name-only --diff-filter=U | grep -q .; then echo "UNRESOLVED:"; git diff --name-only --diff-filter=U; exit 1; fi
 git commit --no-edit -q 2>/dev/null
 tools/gen_manifest.py
